@@ -15,6 +15,51 @@ CHECKS = {
   level="model_checking", ref="5 C01",
   text="TLC checks exhaustively (small constants) that the implementation-shaped peer-map model (inline/heap representation, swap_remove order, cached seeder count) refines the reference tracker on every step; every transition of a generation model is then executed on the real TorrentMaps and every recorded reply of those runs and of random histories is validated by TLC against the reference tracker.",
   note="Exhaustive only within the MC constants (4-5 peer keys, 1-2 torrents); beyond them random histories over 12 keys x 4 hashes x 2 families. Counts above i32::MAX are out of reach. " + TB),
+ "C02": dict(
+  technique="TLC exhaustive evaluation of the transcribed selection arithmetic (all offset pairs) + grid replay on three trackers validated by TLC",
+  level="model_checking", ref="5 C02",
+  text="PeerSelect.tla transcribes extract_response_peers of the three trackers with the code's own range expressions; TLC checks soundness (distinct, in range, requester excluded, count bounds, no out-of-bounds slice, no usize underflow) for every swarm size and limit up to N, every requester position and every pair of random offsets, and must reject an off-by-one variant (negative control). On the real code every (others, limit) grid cell is built through public announces and queried from every position; TLC validates every returned list / set of offer receivers.",
+  note="The exhaustive statement over all RNG outcomes is about the TLA+ transcription; on the real code RNG outcomes are sampled. " + TB),
+ "C04": dict(
+  technique="TLC model checking of a lock-granularity concurrent model (linearizability, deadlock freedom) + schedule replay on real threads + linearizability trace validation",
+  level="model_checking", ref="5 C04",
+  text="UdpConc.tla models shard/peer-map RwLocks, Arc counts and per-thread program counters; TLC explores every interleaving of 3-thread programs (linearization-point ghost state, NoLostAnnounce, NoOrphanWrite, deadlock check) and must find the CHANGELOG race when the Arc guard is removed. TLC-generated schedules are replayed on the real TorrentMaps by a cooperative scheduler built on a feature-gated tracing RwLock wrapper; real yield points are also explored depth-first, randomly and with free-running threads; TLC checks every execution for linearizability and quiescent state.",
+  note="Interleavings inside a critical section and memory-model effects below lock granularity are out of scope; cleaning is a sequence of per-torrent atomic units. " + TB),
+ "C05": dict(
+  technique="TLC model checking of ConnId.tla + boundary-grid replay on the real ConnectionValidator validated by TLC",
+  level="model_checking", ref="5 C05",
+  text="ConnId.tla (ideal MAC, BigNat clock) is model-checked for AcceptIff / ForeignRejected / ForgedRejected / MappedIsV4; TLC evaluates the acceptance rule on a boundary grid (ages 0,1,2,120,2^32-1 x issue/check times one second around both comparisons, near 2^32) and every case is executed on a real ConnectionValidator with same/mapped/other addresses, all single-bit and sampled double-bit alterations, forged ids and ids of another instance; TLC validates each result.",
+  note="Up to the 2^-32 MAC collision chance (one retry with fresh keys); clock set through the verif hook. " + TB),
+ "C06": dict(
+  technique="TLC decision-table model (UdpServer.tla) + black-box trace validation of running trackers on both backends",
+  level="model_checking", ref="5 C06",
+  text="UdpServer.tla states the datagram->reply contract; TLC checks its properties and prints the decision table (class x connection-id provenance x source port 0 x allowed); every row is concretised and sent to running mio and io_uring trackers from several loopback addresses (raw socket for port 0, second tracker process for foreign ids, max_connection_age=1 for stale ids); TLC validates each reply or its absence, transaction id, kind, family, scrape prefix, counts.",
+  note="'No reply' = quiet period on a socket with one outstanding datagram; datagram classes fixed by construction. Known finding: io_uring drops scrapes of >= 24 hashes. " + TB),
+ "C07": dict(
+  technique="TLA+ refinement model checking (TLC) + edge-cover replay and trace validation",
+  level="model_checking", ref="5 C07",
+  text="HttpSwarm.tla (cap 4, no shrink on clean, sorted-map scrape of the first max_scrape hashes) refines the reference tracker on every step (TLC); model transitions are executed on the real storage through the verif re-export and all replies, scrape maps and the stored state after each step are validated by TLC; random histories likewise.",
+  note="Quick tier covers a measured subset of the generation model's edges; clean() reads the mock clock. " + TB),
+ "C08": dict(
+  technique="TLA+ refinement + ownership action properties (TLC) + edge-cover replay and trace validation",
+  level="model_checking", ref="5 C08",
+  text="WsSwarm.tla models storage plus the socket-side announced_info_hashes bookkeeping with connections on different socket workers sharing slot keys; TLC checks RefinesReference, Ownership, ClosedLeavesNothing, PendingFaithful and rejects the pre-repair ownership rules (negative control); transitions and random histories run on the real storage, every out-message and the stored state validated by TLC.",
+  note="Socket-side bookkeeping emulated by the executor and checked by the trace spec; real socket workers are C17. " + TB),
+ "C09": dict(
+  technique="TLA+ model checking with a pending-offer history variable (TLC) + trace validation of every out-message",
+  level="model_checking", ref="5 C09",
+  text="The pending-offer relation is kept independently as a history variable and must equal the entries' expectation maps (PendingFaithful); StepRefines states offer count/injectivity/addressing and forward-iff-pending for answers; offer/answer-biased histories on the real storage are validated message by message, including pending tables from verif_dump.",
+  note="An offer's pending state belongs to the offering peer's stored entry. " + TB),
+ "C10": dict(
+  technique="TLC model checking of time-biased configs of the three storage models + trace validation with state dumps",
+  level="model_checking", ref="5 C10",
+  text="Cleaning steps are specified as: entry survives iff deadline > now (both representations, offers too); TLC checks it on UdpSwarm/HttpSwarm/WsSwarm time configs; time-biased histories run on the three real storages and the stored entries and pending offers are compared with the reference after every step.",
+  note="API level: deadlines passed as ValidUntil (UDP/HTTP) or read from the mock clock (WS). " + TB),
+ "C11": dict(
+  technique="TLC model checking of AccessList.tla + edge-cover replay on update_access_list and the three storages",
+  level="model_checking", ref="5 C11",
+  text="AccessList.tla (file states good/bad-line-at-k/missing, reload = parse fully then swap, gate, clean) is checked for GateSound, ReloadAtomic, CleanEnforces in modes off/allow/deny; every transition is replayed with concrete files on the real update_access_list and each tracker's storage; TLC validates reload results, gate decisions and stored state.",
+  note="API level: the socket workers' 3-line gate is emulated by the executors. " + TB),
  "C20": dict(
   technique="TLA+ model checking of tally/export invariants (TLC) + trace validation + crash-point enumeration against Export.tla",
   level="model_checking", ref="5 C20",
